@@ -782,6 +782,20 @@ Theorem c18_mutex_labels_match_sites :
 Proof. exact rmx_sites. Qed.
 Print Assumptions c18_mutex_labels_match_sites.
 
+(* the label of a step is a function of the mx_event of that step: every acquisition (Lock fast path,
+   lockSlow CAS, hand-off, TryLock CAS1 / CAS2) and every Unlock is an acquire-release on the word, a
+   refused TryLock only an acquire; invocations, semaphore steps and returns emit nothing *)
+Theorem c18_mutex_labels_match_events :
+  forall (r : mx_w) (t : nat) (th : mx_thread),
+    match snd (mx_step_th r t th) with
+    | XEAcq _ | XEUnlocked => rmx_label false r th = [RAcqRel rmx_word]
+    | XETryFail => rmx_label false r th = [RAcq rmx_word]
+    | XEInv | XESkip | XEBlocked | XERet | XENone => rmx_label false r th = []
+    | _ => True
+    end.
+Proof. exact rmx_labels_match_events. Qed.
+Print Assumptions c18_mutex_labels_match_events.
+
 Theorem c18_mutex_rows_in_table : rmx_rows_in_table = true.
 Proof. exact rmx_rows_ok. Qed.
 Print Assumptions c18_mutex_rows_in_table.
